@@ -341,6 +341,13 @@ func (c *Ctx) Eq(a, b *Term) *Term {
 	if a.IsConst() && b.op == OpIte && b.b.IsConst() && b.c.IsConst() {
 		return c.Eq(b, a)
 	}
+	// (odd << s) == 0 is false when s is provably below the width
+	if b.IsConst() && b.val == 0 && a.op == OpShl && a.a.IsConst() && a.a.val&1 == 1 && a.b.op == OpZext && a.b.a.w < 7 && (uint64(1)<<a.b.a.w) <= uint64(a.w) {
+		return c.Bool(false)
+	}
+	if a.IsConst() && a.val == 0 && b.op == OpShl {
+		return c.Eq(b, a)
+	}
 	// zext(x)==const
 	if b.IsConst() && a.op == OpZext {
 		if b.val>>a.a.w != 0 {
@@ -360,9 +367,41 @@ func (c *Ctx) Eq(a, b *Term) *Term {
 	return c.mk(OpEq, 0, a, b, nil, 0)
 }
 
+// ubound returns a cheap syntactic upper bound of an unsigned term.
+func (c *Ctx) ubound(t *Term) uint64 {
+	switch t.op {
+	case OpConst:
+		return t.val
+	case OpZext:
+		return c.ubound(t.a)
+	case OpBvAnd:
+		x, y := c.ubound(t.a), c.ubound(t.b)
+		if x < y {
+			return x
+		}
+		return y
+	case OpIte:
+		x, y := c.ubound(t.b), c.ubound(t.c)
+		if x > y {
+			return x
+		}
+		return y
+	}
+	if mb, ok := c.maxBits[t]; ok {
+		return mask(mb)
+	}
+	return mask(t.w)
+}
+
 func (c *Ctx) Ult(a, b *Term) *Term {
 	if a.IsConst() && b.IsConst() {
 		return c.Bool(a.val < b.val)
+	}
+	if a.IsConst() && !b.IsConst() && a.val >= c.ubound(b) {
+		return c.Bool(false)
+	}
+	if b.IsConst() && !a.IsConst() && c.ubound(a) < b.val {
+		return c.Bool(true)
 	}
 	if same(a, b) {
 		return c.Bool(false)
@@ -384,6 +423,12 @@ func (c *Ctx) Ult(a, b *Term) *Term {
 func (c *Ctx) Ule(a, b *Term) *Term {
 	if a.IsConst() && b.IsConst() {
 		return c.Bool(a.val <= b.val)
+	}
+	if a.IsConst() && !b.IsConst() && a.val > c.ubound(b) {
+		return c.Bool(false)
+	}
+	if b.IsConst() && !a.IsConst() && c.ubound(a) <= b.val {
+		return c.Bool(true)
 	}
 	if same(a, b) {
 		return c.Bool(true)
@@ -503,6 +548,13 @@ func (c *Ctx) BvAnd(a, b *Term) *Term {
 		}
 	}
 	if same(a, b) {
+		return a
+	}
+	// absorption: (x | y) & x = x
+	if a.op == OpBvOr && (a.a == b || a.b == b) {
+		return b
+	}
+	if b.op == OpBvOr && (b.a == a || b.b == a) {
 		return a
 	}
 	if !b.IsConst() && a.id > b.id {
@@ -1322,4 +1374,37 @@ func Eval(t *Term, env map[string]uint64, memo map[*Term]uint64) uint64 {
 	}
 	memo[t] = r
 	return r
+}
+
+// Debug renders the top levels of a term for diagnostics.
+func (t *Term) Debug(depth int) string {
+	if t == nil {
+		return ""
+	}
+	if t.op == OpConst {
+		return constSMT(t)
+	}
+	if t.op == OpVar {
+		return t.name
+	}
+	if depth == 0 {
+		return fmt.Sprintf("<%d:w%d:sz%d>", t.op, t.w, t.size)
+	}
+	name := opNames[t.op]
+	if name == "" {
+		name = fmt.Sprintf("op%d", t.op)
+	}
+	if t.op == OpExtract {
+		name = fmt.Sprintf("extract[%d:%d]", t.val>>8, t.val&0xff)
+	}
+	if t.op == OpZext {
+		name = fmt.Sprintf("zext%d", t.w)
+	}
+	s := "(" + name
+	for _, x := range []*Term{t.a, t.b, t.c} {
+		if x != nil {
+			s += " " + x.Debug(depth-1)
+		}
+	}
+	return s + ")"
 }
